@@ -1,7 +1,8 @@
 (** C09 — Cumulative intensity measures: definition, monotonicity and scaling laws (statements; proofs in P_C09).
     c = pi/(2*9.81) is a parameter (only c >= 0 is used). All statements are over R. *)
-From Coq Require Import Reals List Lia Lra.
-From EQ Require Import lib.Num lib.NpList lib.Quad model.M_displacements model.M_im proofs.P_C09.
+From Coq Require Import ZArith QArith Reals List Lia Lra.
+From EQ Require Import lib.Num lib.NpList lib.Quad model.M_displacements model.M_im proofs.P_C09 proofs.P_C09_cavdp
+  proofs.P_C09_transfer.
 Import ListNotations.
 Local Open Scope R_scope.
 
@@ -52,10 +53,26 @@ Theorem C09_zero_padding : forall c dt (a : list R) k, a <> [] -> last a 0 = 0 -
   int_abs_acc dt (a ++ repeat 0 k) = int_abs_acc dt a ++ repeat (last (int_abs_acc dt a) 0) k.
 Proof. exact P_C09.C09_zero_padding. Qed.
 
-(** Standardised CAV. Proved: the per-window running totals start >= 0, are non-decreasing, and are identically 0 when
-    no one-second window reaches the gate.  NOT proved (partial): the upper bound cav_dp <= CAV/9.81 and the statement
-    about the interpolated series between window ends; those two are evaluated on the implementation output by the
-    correspondence check only. *)
+(** Standardised CAV ([cav_dp g thr dt pps nwin a]; the code has g = 9.81, thr = 0.025, pps = int(1/dt), nwin = int(time[-1])).
+    [ws := cavdp_windows thr dt pps nwin 0 0 (map (fun x => x / g) a)] is the list of running totals after each one-second
+    window; the returned series is [ws] linearly interpolated from the abscissae 0,1,2,... to the record times i*dt.
+    PROVED for all records (theorems below, all unbounded):
+      - window totals: non-negative, non-decreasing, zero below the gate (the three original theorems, names kept);
+      - series: record length (C09_cavdp_length), non-decreasing everywhere and non-negative for every dt >= 0
+        (C09_cavdp_monotone), first element (C09_cavdp_first), value between window ends / at whole seconds / clamped
+        after the last node / final value (C09_cavdp_between, _whole_seconds, _clamped, _final) for every dt with
+        dt * pps = 1, pps >= 1;
+      - gate clause for the whole series (C09_cavdp_gate_series), with the hypothesis only on the nwin windows used;
+      - windows clause (C09_cavdp_windows, C09_cavdp_final_windows, C09_cavdp_last_panel);
+      - upper bound: at every window end, for every element and for the final value (C09_cavdp_window_end_bound,
+        C09_cavdp_bounds, C09_cavdp_final_bounds), for g > 0, pps >= 1, nwin * pps < length a; that guard holds for the
+        code's own nwin = floor(time[-1]) (C09_cavdp_nwin_in_range);
+      - Q -> R transfer of the whole function (C09_cavdp_transfer).
+    REFUTED (false of the model and of calc_cav_dp, witness checked against eqsig): "the series starts at 0" and
+    "cav_dp[i] <= CAV[i]/g at every sample i" (C09_cavdp_starts_at_zero_refuted, C09_cavdp_pointwise_bound_refuted):
+    the running total of window k is placed at t = k, one second before that window ends.
+    NOT proved: nothing about binary64 rounding (exact arithmetic, as everywhere in C09); the number of points
+    np.arange yields per window (taken as pps; observed by the harness, not modelled). *)
 Theorem C09_cavdp_windows_nonneg_partial : forall thr dt pps nwin (ag : list R), 0 <= dt ->
   forall x, In x (cavdp_windows thr dt pps nwin 0 0 ag) -> 0 <= x.
 Proof. intros thr dt pps nwin ag Hdt. exact (P_C09.cavdp_windows_ge thr dt pps nwin 0%nat 0 ag Hdt). Qed.
@@ -66,6 +83,100 @@ Theorem C09_cavdp_gate : forall thr dt pps nwin (ag : list R),
   (forall s, amax (vabs (window s (S pps) ag)) < thr) ->
   cavdp_windows thr dt pps nwin 0 0 ag = repeat 0 nwin.
 Proof. intros; now apply P_C09.cavdp_windows_gate. Qed.
+
+(** *** the interpolated series *)
+Theorem C09_cavdp_monotone : forall g thr dt pps nwin (a : list R), 0 <= dt ->
+  nondecreasing (cav_dp g thr dt pps nwin a) /\ (forall x, In x (cav_dp g thr dt pps nwin a) -> 0 <= x).
+Proof. intros g thr dt pps nwin a Hdt. split; [now apply P_C09_cavdp.cavdp_monotone | now apply P_C09_cavdp.cavdp_nonneg]. Qed.
+(** the first element is the total of the first window (it is not 0 in general, see the refutation below) *)
+Theorem C09_cavdp_first : forall g thr dt pps nwin (a : list R), a <> [] ->
+  nth 0 (cav_dp g thr dt pps nwin a) 0 = nth 0 (cavdp_windows thr dt pps nwin 0 0 (map (fun x => x / g) a)) 0.
+Proof. exact P_C09_cavdp.cavdp_first. Qed.
+(** sample k*pps + r, 0 <= r < pps, between the window ends k and k+1: linear in r *)
+Theorem C09_cavdp_between : forall g thr dt pps nwin (a : list R), (1 <= pps)%nat -> dt * IZR (Z.of_nat pps) = 1 ->
+  forall k r, (S k < nwin)%nat -> (r < pps)%nat -> (k * pps + r < length a)%nat ->
+  let ws := cavdp_windows thr dt pps nwin 0 0 (map (fun x => x / g) a) in
+  nth (k * pps + r) (cav_dp g thr dt pps nwin a) 0 = nth k ws 0 + (nth (S k) ws 0 - nth k ws 0) * (IZR (Z.of_nat r) * dt).
+Proof. exact P_C09_cavdp.cavdp_between. Qed.
+Theorem C09_cavdp_whole_seconds : forall g thr dt pps nwin (a : list R), (1 <= pps)%nat -> dt * IZR (Z.of_nat pps) = 1 ->
+  forall k, (k < nwin)%nat -> (k * pps < length a)%nat ->
+  nth (k * pps) (cav_dp g thr dt pps nwin a) 0 = nth k (cavdp_windows thr dt pps nwin 0 0 (map (fun x => x / g) a)) 0.
+Proof. exact P_C09_cavdp.cavdp_whole_seconds. Qed.
+Theorem C09_cavdp_clamped : forall g thr dt pps nwin (a : list R), (1 <= pps)%nat -> dt * IZR (Z.of_nat pps) = 1 ->
+  forall k r, (nwin <= S k)%nat -> (r < pps)%nat -> (k * pps + r < length a)%nat ->
+  nth (k * pps + r) (cav_dp g thr dt pps nwin a) 0 = last (cavdp_windows thr dt pps nwin 0 0 (map (fun x => x / g) a)) 0.
+Proof. exact P_C09_cavdp.cavdp_clamped. Qed.
+Theorem C09_cavdp_final : forall g thr dt pps nwin (a : list R), (1 <= pps)%nat -> dt * IZR (Z.of_nat pps) = 1 ->
+  a <> [] -> ((nwin - 1) * pps <= length a - 1)%nat ->
+  last (cav_dp g thr dt pps nwin a) 0 = last (cavdp_windows thr dt pps nwin 0 0 (map (fun x => x / g) a)) 0.
+Proof. exact P_C09_cavdp.cavdp_final. Qed.
+Theorem C09_cavdp_starts_at_zero_refuted :
+  exists (g thr dt : R) (pps nwin : nat) (a : list R),
+    0 < g /\ (1 <= pps)%nat /\ dt * IZR (Z.of_nat pps) = 1 /\ (nwin * pps < length a)%nat /\
+    nth 0 (cav_dp g thr dt pps nwin a) 0 <> 0.
+Proof. exact P_C09_cavdp.cavdp_starts_at_zero_refuted. Qed.
+
+(** *** gate: no window used by the loop reaches thr => the whole returned series is 0 *)
+Theorem C09_cavdp_gate_series : forall g thr dt pps nwin (a : list R),
+  (forall j, (j < nwin)%nat -> amax (vabs (window (j * pps) (S pps) (map (fun x => x / g) a))) < thr) ->
+  cav_dp g thr dt pps nwin a = repeat 0 (length a).
+Proof. exact P_C09_cavdp.cavdp_gate_series. Qed.
+
+(** *** windows: running total k = sum over windows j <= k of (0 below the gate | the pps-point trapezoid of |a|/g) *)
+Theorem C09_cavdp_windows : forall thr dt pps nwin (ag : list R) k, (k < nwin)%nat ->
+  nth k (cavdp_windows thr dt pps nwin 0 0 ag) 0
+  = nsum (map (fun j => if Rltb (amax (vabs (window (j * pps) (S pps) ag)) - thr) 0 then 0
+                        else trapz dt (firstn pps (vabs (window (j * pps) (S pps) ag)))) (seq 0 (S k))).
+Proof. exact P_C09_cavdp.cavdp_windows_sum. Qed.
+Theorem C09_cavdp_final_windows : forall g thr dt pps nwin (a : list R), (1 <= pps)%nat -> dt * IZR (Z.of_nat pps) = 1 ->
+  a <> [] -> ((nwin - 1) * pps <= length a - 1)%nat ->
+  let ag := map (fun x => x / g) a in
+  last (cav_dp g thr dt pps nwin a) 0
+  = nsum (map (fun j => if Rltb (amax (vabs (window (j * pps) (S pps) ag)) - thr) 0 then 0
+                        else trapz dt (firstn pps (vabs (window (j * pps) (S pps) ag)))) (seq 0 nwin)).
+Proof. exact P_C09_cavdp.cavdp_final_sum. Qed.
+(** the pps-point trapezoid is the full one-second trapezoid of the window minus exactly its last panel *)
+Theorem C09_cavdp_last_panel : forall dt pps (ag : list R) s, (1 <= pps)%nat -> (s + pps < length ag)%nat ->
+  trapz dt (vabs (window s (S pps) ag))
+  = trapz dt (firstn pps (vabs (window s (S pps) ag))) + dt * (Rabs (nth (s + pps) ag 0) + Rabs (nth (s + pps - 1) ag 0)) / 2.
+Proof. exact P_C09_cavdp.cavdp_last_panel. Qed.
+
+(** *** upper bound by CAV / g *)
+Theorem C09_cavdp_window_end_bound : forall g thr dt pps nwin (a : list R) k, 0 <= dt -> 0 < g -> (1 <= pps)%nat ->
+  (k < nwin)%nat -> (S k * pps < length a)%nat ->
+  nth k (cavdp_windows thr dt pps nwin 0 0 (map (fun x => x / g) a)) 0 <= nth (S k * pps) (cav dt a) 0 / g.
+Proof. exact P_C09_cavdp.cavdp_windows_le_cav. Qed.
+Theorem C09_cavdp_bounds : forall g thr dt pps nwin (a : list R), 0 <= dt -> 0 < g -> (1 <= pps)%nat ->
+  (nwin * pps < length a)%nat ->
+  forall x, In x (cav_dp g thr dt pps nwin a) -> 0 <= x <= last (cav dt a) 0 / g.
+Proof. exact P_C09_cavdp.cavdp_le_cav. Qed.
+Theorem C09_cavdp_final_bounds : forall g thr dt pps nwin (a : list R), 0 <= dt -> 0 < g -> (1 <= pps)%nat ->
+  (nwin * pps < length a)%nat ->
+  0 <= last (cav_dp g thr dt pps nwin a) 0 <= last (cav dt a) 0 / g.
+Proof. exact P_C09_cavdp.cavdp_final_le_cav. Qed.
+(** the guard [nwin * pps < length a] is what the code's own nwin = int(time[-1]) satisfies *)
+Theorem C09_cavdp_nwin_in_range : forall (dt : R) pps n, (1 <= pps)%nat -> dt * IZR (Z.of_nat pps) = 1 -> (1 <= n)%nat ->
+  let nwin := Z.to_nat (nfloor (last (times dt n) 0)) in
+  nwin = ((n - 1) / pps)%nat /\ (nwin * pps < n)%nat.
+Proof. exact P_C09_cavdp.cavdp_nwin_in_range. Qed.
+(** the bound does NOT hold sample by sample in time *)
+Theorem C09_cavdp_pointwise_bound_refuted :
+  exists (g thr dt : R) (pps nwin : nat) (a : list R) (i : nat),
+    0 < g /\ (1 <= pps)%nat /\ dt * IZR (Z.of_nat pps) = 1 /\ (nwin * pps < length a)%nat /\ (i < length a)%nat /\
+    nth i (cav dt a) 0 / g < nth i (cav_dp g thr dt pps nwin a) 0.
+Proof. exact P_C09_cavdp.cavdp_pointwise_bound_refuted. Qed.
+
+(** *** the Q run compared with the implementation is the R model on the rational inputs *)
+Theorem C09_cavdp_transfer : forall (g thr dt : Q) (g' thr' dt' : R) pps nwin (a : list Q) (a' : list R),
+  rel g g' -> rel thr thr' -> rel dt dt' -> Forall2 rel a a' ->
+  Forall2 rel (cav_dp g thr dt pps nwin a) (cav_dp g' thr' dt' pps nwin a').
+Proof. intros g thr dt g' thr' dt'. exact (P_C09_transfer.cav_dp_transfer g g' thr thr' dt dt'). Qed.
+
+(** the guards of the cav_dp theorems are met by a gate-passing record (eqsig returns 0.5 here as well) *)
+Example C09_cavdp_nonvacuous : let a := [9.81; 9.81; 9.81; 9.81; 9.81] in
+  a <> [] /\ (1 <= 2)%nat /\ (1/2) * IZR (Z.of_nat 2) = 1 /\ (2 * 2 < length a)%nat /\
+  nth 0 (cav_dp 9.81 0.025 (1/2) 2 2 a) 0 = 1/2.
+Proof. cbv zeta. repeat split; [discriminate|lia|cbn; lra|cbn; lia|exact P_C09_cavdp.cavdp_witness_first]. Qed.
 
 Example C09_nonvacuous : let a := [0; 3; -4; 0] in
   a <> [] /\ last a 0 = 0 /\ last (cav (1/2) a) 0 = 3.5.
